@@ -40,7 +40,8 @@ def build(g, sid, positions, SR, chans, deviant=None, has_SR=True, amp=True, off
                 sr = SR * 2 if r.random() < 0.5 else SR * (1 + 2 ** -19)
         r.shuffle(chs)
         N = r.randint(4, 12)
-        if r.random() < subs and has_SR and deviant is None:
+        if r.random() < subs and has_SR and (deviant is None or (deviant[0] == i and deviant[1] == "chan")):
+            # (a subsequence may be the entry whose channel set deviates)
             sub = g.fresh("s")
             eid = g.fresh("e")
             ops += [{"op": "sq.new", "id": sub}, {"op": "sq.setSR", "id": sub, "v": enc(SR)}]
